@@ -110,10 +110,10 @@ class Stall:
     If it reaches its next synchronisation operation first, the stall does not fire."""
 
     __slots__ = ('role', 'index', 'duration', 'fired', 'after_kind', 'after_n', 'after_obj',
-                 'lines')
+                 'lines', 'origin')
 
     def __init__(self, role, index=None, duration=None, after_kind=None, after_n=None,
-                 after_obj=None, lines=None):
+                 after_obj=None, lines=None, origin=None):
         self.role = role
         self.index = index
         self.duration = duration
@@ -121,17 +121,23 @@ class Stall:
         self.after_n = after_n
         self.after_obj = after_obj
         self.lines = lines
+        # origin = 'start:<file suffix>': `lines` is counted from the START of the thread, over
+        # the lines it executes in that source file of the tree under test only (whatever
+        # synchronisation operations lie in between) -- for a connection thread and
+        # 'network_bridge/server.py' that is its admission code, where the checks against the
+        # shared seat table and the write into it are plain statements with nothing between them
+        self.origin = origin
         self.fired = False
 
     def to_json(self):
         return {'role': self.role, 'index': self.index, 'duration': self.duration,
                 'after_kind': self.after_kind, 'after_n': self.after_n,
-                'after_obj': self.after_obj, 'lines': self.lines}
+                'after_obj': self.after_obj, 'lines': self.lines, 'origin': self.origin}
 
     @classmethod
     def from_json(cls, d):
         return cls(d['role'], d.get('index'), d.get('duration'), d.get('after_kind'),
-                   d.get('after_n'), d.get('after_obj'), d.get('lines'))
+                   d.get('after_n'), d.get('after_obj'), d.get('lines'), d.get('origin'))
 
 
 class Interrupt:
@@ -429,6 +435,10 @@ class Sim:
             if self.aborting:
                 raise SimKill()
             self._post_resume(t)
+            for st in self.stalls_by_role.get(t.role, ()):
+                if st.origin and st.lines and not st.fired:
+                    self._arm_start_stall(t, st)
+                    break
             t.retval = t.fn()
             # between run() returning and the thread no longer counting as alive there is
             # interpreter code (threading's bootstrap): a thread can be pre-empted -- or stalled
@@ -503,7 +513,7 @@ class Sim:
         sl = self.stalls_by_role.get(t.role)
         if sl:
             for s in sl:
-                if s.fired:
+                if s.fired or s.origin:
                     continue
                 hit = False
                 if s.index is not None:
@@ -574,6 +584,40 @@ class Sim:
                 f.f_trace = local
             f = f.f_back
         t.line_arm = s
+        sys.settrace(glob)
+
+    def _arm_start_stall(self, t, s):
+        """Called in thread t itself before its body runs: freeze it at the s.lines-th source line
+        it executes in the file named by s.origin ('start:<suffix>')."""
+        root = self.trace_root
+        if not root:
+            return
+        suffix = s.origin.split(':', 1)[1] if ':' in s.origin else ''
+        left = [int(s.lines)]
+        sim = self
+        s.fired = True      # armed; counted as a fault only if it gets to freeze
+
+        def local(frame, event, arg):
+            if left[0] <= 0:
+                return None
+            if event == 'line':
+                left[0] -= 1
+                if left[0] <= 0:
+                    sys.settrace(None)
+                    sim.count_fault('stall.midcode.from_start')
+                    sim._apply_stall(t, s)
+                    where = frame.f_code.co_filename[len(root):] + ':' + str(frame.f_lineno)
+                    sim.yield_('line', where)
+                    return None
+            return local
+
+        def glob(frame, event, arg):
+            if left[0] > 0:
+                fn = frame.f_code.co_filename
+                if fn.startswith(root) and fn.endswith(suffix):
+                    return local
+            return None
+
         sys.settrace(glob)
 
     def _mark_fault(self):
